@@ -181,7 +181,9 @@ func (s *grpcServer) FetchBlob(ctx context.Context, req *asset.FetchBlobRequest)
 			}, nil
 		}
 
-		if translateGRPCErrCodeFromClient(err) == codes.ResourceExhausted {
+		if translateGRPCErrCodeFromClient(err) == codes.ResourceExhausted ||
+			gRPCErrCode(err, codes.Unknown) == codes.ResourceExhausted {
+			// The latter covers *cache.Error from the disk cache (507).
 			return &resourceExhaustedResponse, nil
 		}
 
